@@ -230,6 +230,72 @@ def same_expected(a, b):
 RETYPE = {"str": [("i", 1), ("b", True), ("f", 1.5), ("d", "1979-05-27"), ("a", [])], "bool": [("s", "true"), ("i", 1), ("f", 1.5), ("d", "1979-05-27"), ("a", [])]}
 
 
+# names the spec uses somewhere (in this or a sibling format, or in earlier API versions): the
+# unknown keys most likely to be accepted by an alias, a flattened struct or a compatibility shim
+VOCAB = sorted({k for req, opt in SCHEMA.values() for k in list(req) + list(opt)} | {
+    "extension", "extensions", "stack", "target", "distro", "exclude", "include", "path", "direct", "run-image", "build-image", "mixin", "env",
+    "process", "label", "slice", "entry", "require", "provide", "requires", "provides", "or", "exec-env", "launch", "build", "cache", "type", "clear_env", "sbom_formats", "working_dir", "working-directory"})
+
+
+def names_only(path):
+    return "/".join(p for p in path if isinstance(p, str)) or "<root>"
+
+
+def structural_mutants(fmt, doc):
+    """mutations beyond the single scalar: spec-vocabulary keys as unknown keys, a required key
+    renamed to a vocabulary word (two-point), and table / array-of-tables / metadata positions
+    given a value of another kind"""
+    out = []
+    for tp in tables(doc):
+        req, opt = SCHEMA[kind_of(fmt, tp)]
+        defined = set(req) | set(opt)
+        here = get(doc, tp)
+        for w in VOCAB:
+            if w in defined or w in here:
+                continue
+            for val in (("b", True), ("s", "x")):
+                d = copy.deepcopy(doc)
+                get(d, tp)[w] = Raw(val)
+                out.append((d, "unknown-key", f"spec-vocabulary key {w} = {val[1]!r} inserted at {names_only(tp)}"))
+            for k in req:
+                if k not in here:
+                    continue
+                d = copy.deepcopy(doc)
+                t = get(d, tp)
+                t[w] = t.pop(k)
+                out.append((d, "missing-required-key", f"required key {k} at {names_only(tp)} renamed to {w}"))
+    # table positions
+    for tp in tables(doc):
+        if not tp:
+            continue
+        t = get(doc, tp)
+        alts = [("array", ("a", [to_tagged(v) for v in t.values()])), ("string", ("s", "x")), ("datetime", ("d", "1979-05-27")), ("empty-array", ("a", []))]
+        for name, tagged in alts:
+            if isinstance(tp[-1], int) and name == "empty-array":
+                continue
+            d = copy.deepcopy(doc)
+            get(d, tp[:-1])[tp[-1]] = Raw(tagged)
+            out.append((d, f"table-given-as-{name}:{names_only(tp)}", f"table at {'/'.join(map(str, tp))} replaced by a {name}"))
+    # arrays of tables given as a single table; free-form metadata given as a non-table
+    def walk(node, path):
+        items = node.items() if isinstance(node, dict) else enumerate(node)
+        for k, v in items:
+            if isinstance(v, Meta):
+                for name, tagged in (("datetime", ("d", "1979-05-27")), ("string", ("s", "x")), ("array", ("a", [("i", 1)])), ("integer", ("i", 1))):
+                    d = copy.deepcopy(doc)
+                    get(d, path)[k] = Raw(tagged)
+                    out.append((d, f"metadata-given-as-{name}:{names_only(path + (k,))}", f"free-form metadata table at {'/'.join(map(str, path + (k,)))} replaced by a {name}"))
+            elif isinstance(v, list) and v and all(isinstance(e, dict) for e in v):
+                d = copy.deepcopy(doc)
+                get(d, path)[k] = Raw(to_tagged(v[0]))
+                out.append((d, f"array-of-tables-given-as-table:{names_only(path + (k,))}", f"array of tables at {'/'.join(map(str, path + (k,)))} replaced by its first element"))
+                walk(v, path + (k,))
+            elif isinstance(v, (dict, list)) and not isinstance(v, Raw):
+                walk(v, path + (k,))
+    walk(doc, ())
+    return out
+
+
 def mutants(fmt, doc):
     out = []
     for tp in tables(doc):
@@ -274,10 +340,13 @@ def run(ctx):
         # thorough: mutate every valid document; quick: the full and minimal ones plus every 5th
         for d, kind, what in mutants(fmt, doc):
             cases.append({"fmt": fmt, "doc": d, "label": f"{label}; {what}", "mut": kind})
+        if label in ("full", "minimal"):
+            for d, kind, what in structural_mutants(fmt, doc):
+                cases.append({"fmt": fmt, "doc": d, "label": f"{label}; {what}", "mut": kind, "structural": True})
     if not ctx.thorough:
         keep = []
         for i, c in enumerate(cases):
-            if c["mut"] is None or "full" in c["label"].split(";")[0] or "minimal" in c["label"].split(";")[0] or i % 5 == 0:
+            if c["mut"] is None or c.get("structural") or "full" in c["label"].split(";")[0] or "minimal" in c["label"].split(";")[0] or i % 5 == 0:
                 keep.append(c)
         cases = keep
     if ctx.replay:
@@ -335,7 +404,7 @@ def run(ctx):
     res.cov("mutants", n_mut)
     res.cov("mutants_by_kind", kinds)
     res.cov("distinct_nontrivial", n_mut)
-    res.cov("rule", "valid corpus: for each of 7 formats the full document, the minimal document and, one table at a time, every subset of that table's optional keys removed; mutants (each applied to a valid document, one at a time): zzz=1 inserted into every table / array-of-tables element outside metadata, every required key deleted, every scalar (incl. string-array elements) retyped to each other kind and to [], order added to a component with stacks/targets, targets/stacks added to a composite. Valid => accepted, classified and every field equal to the document with spec defaults; mutant => rejected. non-trivial = mutants")
+    res.cov("rule", "valid corpus: for each of 7 formats the full document, the minimal document and, one table at a time, every subset of that table's optional keys removed; mutants (each applied to a valid document, one at a time): zzz=1 inserted into every table / array-of-tables element outside metadata, every required key deleted, every scalar (incl. string-array elements) retyped to each other kind and to [], order added to a component with stacks/targets, targets/stacks added to a composite; on the full and the minimal document additionally: every word of the spec's vocabulary (keys of all formats, earlier API versions, sibling descriptors) inserted as an unknown key into every table, every required key renamed to every vocabulary word, every table position given as array / string / datetime, every array of tables given as a single table, free-form metadata given as datetime / string / array / integer. Valid => accepted, classified and every field equal to the document with spec defaults; mutant => rejected. non-trivial = mutants")
     res.cov("bound", {"mutated_valid_documents": "all" if ctx.thorough else "full + minimal + every 5th case"})
     res.cov("exhaustive", True)
     res.assume("schema = Buildpack API 0.10 as restated in DESIGN C08; pinned keys (distro name/version, store.metadata, platform.os when [platform] is given, non-empty order/group) are always present and never deleted")
